@@ -178,6 +178,7 @@ func GenCase(r *lib.RNG, name, profile string) *Case {
 	}
 	nconv := lib.Pick(r, []int{1, 1, 2, 2, 3, 4, 5, 8, 12})
 	seen := map[convKey]bool{}
+	var reuseOf map[int]int // conversation -> the earlier conversation whose 4-tuple it reuses
 	wires := [][]wp{}
 	for len(c.Convs) < nconv {
 		cv := Conv{Proto: "tcp"}
@@ -198,10 +199,24 @@ func GenCase(r *lib.RNG, name, profile string) *Case {
 		}
 		cv.CP = lib.Pick(r, []int{1024, 40000, 40001, 50000, 1024 + r.Intn(60000)})
 		cv.SP = lib.Pick(r, []int{53, 80, 443, 1337, 8080, 40000})
-		if seen[keyOf(&cv)] {
-			continue
+		// one case in ten: a TCP connection REUSES the 4-tuple of an earlier one (same client port again after the
+		// first connection is over and the inactivity timeout has passed) — two conversations, two streams
+		if reuseOf == nil && cv.Proto == "tcp" && r.Chance(1, 10) {
+			for a := range c.Convs {
+				if c.Convs[a].Proto == "tcp" {
+					cv.C, cv.S, cv.CP, cv.SP = c.Convs[a].C, c.Convs[a].S, c.Convs[a].CP, c.Convs[a].SP
+					reuseOf = map[int]int{len(c.Convs): a}
+					tags["tuple_reused_after_timeout"] = true
+					break
+				}
+			}
 		}
-		seen[keyOf(&cv)] = true
+		if _, isReuse := reuseOf[len(c.Convs)]; !isReuse {
+			if seen[keyOf(&cv)] {
+				continue
+			}
+			seen[keyOf(&cv)] = true
+		}
 		mss := lib.Pick(r, []int{1460, 1460, 1460, 536, 100, 7, 1, 1 + r.Intn(1460)})
 		nm := lib.Pick(r, []int{0, 1, 1, 2, 3, 4, 6})
 		for k := 0; k < nm; k++ {
@@ -263,13 +278,26 @@ func GenCase(r *lib.RNG, name, profile string) *Case {
 	for _, w := range wires {
 		remaining += len(w)
 	}
+	// a conversation that reuses a 4-tuple starts only when the earlier one is over
+	mayRun := func(i int) bool {
+		if _, ok := reuseOf[i]; ok {
+			// (… and when every other conversation is over as well: the gap before it must not make a conversation
+			// that is still going on idle for longer than the timeout)
+			for j := range wires {
+				if j != i && pos[j] < len(wires[j]) {
+					return false
+				}
+			}
+		}
+		return pos[i] < len(wires[i])
+	}
 	cur := r.Intn(len(wires))
 	for remaining > 0 {
-		if pos[cur] >= len(wires[cur]) || r.Chance(1, 3) {
+		if !mayRun(cur) || r.Chance(1, 3) {
 			// pick another conversation that still has packets
 			live := []int{}
 			for i := range wires {
-				if pos[i] < len(wires[i]) {
+				if mayRun(i) {
 					live = append(live, i)
 				}
 			}
@@ -369,6 +397,13 @@ func GenCase(r *lib.RNG, name, profile string) *Case {
 				c.Files = append(c.Files, File{Name: names[fi]})
 			}
 			if inc != 0 && !cutAt[i] {
+				fileSameTs = false
+			}
+			// the first packet of a conversation that reuses a 4-tuple comes after the inactivity timeout
+			if a, ok := reuseOf[g.conv]; ok && !first[g.conv] {
+				if gap := 301_000_000 + int64(r.Intn(100))*1_000_000 - (t + inc - last[a]); gap > 0 {
+					inc += gap
+				}
 				fileSameTs = false
 			}
 			t += inc
